@@ -1,50 +1,250 @@
-/* S-decomp: response body through the decompressor chain of the real connection parser.
- * case: decomp \t bomb=<n>,layers=<n>,lzmalayers=<n> \t <response head hex> \t <body chunk hex> ...
- * output: delivered=<total bytes handed to RESPONSE_BODY_DATA> cb=<callbacks with data> nullcb=<callbacks with NULL data>
- *         sml=<response_message_len> sel=<response_entity_len> hash=<fnv1a of delivered bytes> trace=<verif trace bits> rcs=<stream return codes> */
-static unsigned long long dc_delivered, dc_hash;
-static unsigned dc_cb, dc_nullcb;
-static unsigned char *dc_keep; static size_t dc_keep_len, dc_keep_cap;
-static int dc_body_cb(htp_tx_data_t *d) {
-    if (d->data == NULL) { dc_nullcb++; return HTP_OK; }
-    dc_cb++; dc_delivered += d->len;
-    for (size_t i = 0; i < d->len; i++) { dc_hash ^= d->data[i]; dc_hash *= 1099511628211ULL; }
-    if (dc_keep_len + d->len <= dc_keep_cap) { memcpy(dc_keep + dc_keep_len, d->data, d->len); }
-    dc_keep_len += d->len;
+/* S-decomp (C07): a message body through the decompressor chain of the REAL connection parser.
+ *
+ * case:  decomp \t <cfg> \t <chunk hex> \t <chunk hex> ...        (a trailing extra field starting with '@' is ignored:
+ *                                                                   it is the recorded log handed to the model run)
+ *   cfg = comma separated k=v:  dir (0 = the chunks are the outbound/response stream after a fixed request, 1 = the chunks are the
+ *         inbound/request stream, answered by a fixed response), bomb, layers, lzmalayers, lzmamem, tlimit (compression_time_limit),
+ *         tstep (usec the wrapped clock advances per gettimeofday call), decomp (response_decompression_enabled / request_...),
+ *         hookfail (the k-th body-data callback returns HTP_ERROR; 0 = never)
+ *   every chunk is copied into an exact-size heap block and handed to htp_connp_res_data / htp_connp_req_data; then htp_connp_close.
+ *
+ * output (one line, three parts separated by " | "):
+ *   part 0  observable result, compared with the model:
+ *           ev=<body-data callbacks> sizes=<run-length list of payload sizes in order, N = NULL data> tot=<sum> crc=<crc32 of the
+ *           delivered bytes> sml=<message_len> sel=<entity_len> layers=<decompressors in the chain> cep=<content_encoding_processing>
+ *           trace=<verif trace bits> left=0 desync=- [data=<hex> when tot <= 64]
+ *   part 1  implementation-only facts used by the property oracles: rcs=<stream return codes> nb=<body calls recorded>
+ *   part 2  the recorded log, '@' followed by ';'-separated entries in call order (needs the link-time wrapping of htp_driver_decomp):
+ *           C:<hex of the Content-Encoding value|N>      seen by the HEADERS hook, i.e. just before the chain is built
+ *           B:<hex|N>                                   a call of htp_tx_res_process_body_data_ex(data|NULL)
+ *           N:<windowBits>:<rc>                         inflateInit2_
+ *           I:<avail_in>:<avail_out>:<peek hex>:<consumed>:<rc>:<produced hex>      inflate
+ *           E                                           inflateEnd
+ *           A:<rc>                                      LzmaDec_Allocate
+ *           D:<avail_in>:<avail_out>:<peek hex>:<consumed>:<rc>:<status>:<produced hex>   LzmaDec_DecodeToBuf
+ *           F                                           LzmaDec_Free
+ *           T:<sec>:<usec>                              gettimeofday (answer of the wrapped, deterministic clock)
+ *           H:<rc>                                      return value of the user's body-data callback
+ */
+#include <sys/time.h>
+
+typedef struct { char *p; size_t n, cap; } dz_buf_t;
+static dz_buf_t dz_log, dz_sizes;
+static int dz_active;
+static void dz_need(dz_buf_t *b, size_t k) {
+    if (b->n + k + 1 > b->cap) { b->cap = (b->n + k + 1) * 2 + 256; b->p = (char *) realloc(b->p, b->cap); }
+}
+static void dz_puts(dz_buf_t *b, const char *s) { size_t k = strlen(s); dz_need(b, k); memcpy(b->p + b->n, s, k); b->n += k; b->p[b->n] = 0; }
+static void dz_putn(dz_buf_t *b, long long v) { char t[32]; snprintf(t, sizeof t, "%lld", v); dz_puts(b, t); }
+static void dz_puthex(dz_buf_t *b, const unsigned char *p, size_t n) {
+    static const char hx[] = "0123456789abcdef";
+    if (n == 0 || p == NULL) { dz_puts(b, "-"); return; }
+    dz_need(b, 2 * n);
+    for (size_t i = 0; i < n; i++) { b->p[b->n++] = hx[p[i] >> 4]; b->p[b->n++] = hx[p[i] & 15]; }
+    b->p[b->n] = 0;
+}
+static void dz_entry(const char *tag) { dz_puts(&dz_log, dz_log.n ? ";" : "@"); dz_puts(&dz_log, tag); }
+#define DZ_PEEK 4
+
+#ifdef DZ_WRAP
+extern __typeof__(inflate) __real_inflate, __wrap_inflate;
+extern __typeof__(inflateInit2_) __real_inflateInit2_, __wrap_inflateInit2_;
+extern __typeof__(inflateEnd) __real_inflateEnd, __wrap_inflateEnd;
+extern __typeof__(LzmaDec_Allocate) __real_LzmaDec_Allocate, __wrap_LzmaDec_Allocate;
+extern __typeof__(LzmaDec_Free) __real_LzmaDec_Free, __wrap_LzmaDec_Free;
+extern __typeof__(LzmaDec_DecodeToBuf) __real_LzmaDec_DecodeToBuf, __wrap_LzmaDec_DecodeToBuf;
+extern __typeof__(gettimeofday) __real_gettimeofday, __wrap_gettimeofday;
+extern __typeof__(htp_tx_res_process_body_data_ex) __real_htp_tx_res_process_body_data_ex, __wrap_htp_tx_res_process_body_data_ex;
+extern __typeof__(htp_tx_req_process_body_data_ex) __real_htp_tx_req_process_body_data_ex, __wrap_htp_tx_req_process_body_data_ex;
+static long long dz_clock_calls, dz_clock_step;
+static unsigned dz_layers_seen;
+static int dz_dir;
+static void dz_count_layers(htp_connp_t *connp) {
+    unsigned n = 0;
+    for (htp_decompressor_t *c = dz_dir ? connp->req_decompressor : connp->out_decompressor; c != NULL; c = c->next) n++;
+    if (n > dz_layers_seen) dz_layers_seen = n;
+}
+
+int __wrap_inflate(z_streamp strm, int flush) {
+    if (!dz_active) return __real_inflate(strm, flush);
+    uInt ai = strm->avail_in, ao = strm->avail_out;
+    Bytef *no = strm->next_out;
+    unsigned char pk[DZ_PEEK]; size_t npk = ai < DZ_PEEK ? ai : DZ_PEEK;
+    memcpy(pk, strm->next_in, npk);
+    int rc = __real_inflate(strm, flush);
+    dz_entry("I:"); dz_putn(&dz_log, ai); dz_puts(&dz_log, ":"); dz_putn(&dz_log, ao); dz_puts(&dz_log, ":");
+    dz_puthex(&dz_log, pk, npk); dz_puts(&dz_log, ":"); dz_putn(&dz_log, (long long) ai - strm->avail_in); dz_puts(&dz_log, ":");
+    dz_putn(&dz_log, rc); dz_puts(&dz_log, ":"); dz_puthex(&dz_log, no, (size_t) (ao - strm->avail_out));
+    return rc;
+}
+int __wrap_inflateInit2_(z_streamp strm, int windowBits, const char *version, int stream_size) {
+    int rc = __real_inflateInit2_(strm, windowBits, version, stream_size);
+    if (dz_active) { dz_entry("N:"); dz_putn(&dz_log, windowBits); dz_puts(&dz_log, ":"); dz_putn(&dz_log, rc); }
+    return rc;
+}
+int __wrap_inflateEnd(z_streamp strm) {
+    if (dz_active) dz_entry("E");
+    return __real_inflateEnd(strm);
+}
+SRes __wrap_LzmaDec_Allocate(CLzmaDec *p, const Byte *props, unsigned propsSize, ISzAllocPtr alloc) {
+    SRes rc = __real_LzmaDec_Allocate(p, props, propsSize, alloc);
+    if (dz_active) { dz_entry("A:"); dz_putn(&dz_log, rc); }
+    return rc;
+}
+void __wrap_LzmaDec_Free(CLzmaDec *p, ISzAllocPtr alloc) {
+    if (dz_active) dz_entry("F");
+    __real_LzmaDec_Free(p, alloc);
+}
+SRes __wrap_LzmaDec_DecodeToBuf(CLzmaDec *p, Byte *dest, SizeT *destLen, const Byte *src, SizeT *srcLen, ELzmaFinishMode finishMode,
+                                ELzmaStatus *status, SizeT memlimit) {
+    if (!dz_active) return __real_LzmaDec_DecodeToBuf(p, dest, destLen, src, srcLen, finishMode, status, memlimit);
+    SizeT ai = *srcLen, ao = *destLen;
+    unsigned char pk[DZ_PEEK]; size_t npk = ai < DZ_PEEK ? ai : DZ_PEEK;
+    memcpy(pk, src, npk);
+    SRes rc = __real_LzmaDec_DecodeToBuf(p, dest, destLen, src, srcLen, finishMode, status, memlimit);
+    dz_entry("D:"); dz_putn(&dz_log, (long long) ai); dz_puts(&dz_log, ":"); dz_putn(&dz_log, (long long) ao); dz_puts(&dz_log, ":");
+    dz_puthex(&dz_log, pk, npk); dz_puts(&dz_log, ":"); dz_putn(&dz_log, (long long) *srcLen); dz_puts(&dz_log, ":");
+    dz_putn(&dz_log, rc); dz_puts(&dz_log, ":"); dz_putn(&dz_log, (long long) *status); dz_puts(&dz_log, ":");
+    dz_puthex(&dz_log, dest, (size_t) *destLen);
+    return rc;
+}
+int __wrap_gettimeofday(struct timeval *tv, void *tz) {
+    if (!dz_active) return __real_gettimeofday(tv, tz);
+    long long t = 1000000LL * 1000000LL + dz_clock_calls * dz_clock_step;
+    dz_clock_calls++;
+    tv->tv_sec = (time_t) (t / 1000000); tv->tv_usec = (suseconds_t) (t % 1000000);
+    dz_entry("T:"); dz_putn(&dz_log, (long long) tv->tv_sec); dz_puts(&dz_log, ":"); dz_putn(&dz_log, (long long) tv->tv_usec);
+    return 0;
+}
+static unsigned dz_nbody;
+static void dz_body_entry(const void *data, size_t len) {
+    dz_nbody++;
+    dz_entry("B:");
+    if (data == NULL) dz_puts(&dz_log, "N"); else dz_puthex(&dz_log, (const unsigned char *) data, len);
+}
+htp_status_t __wrap_htp_tx_res_process_body_data_ex(htp_tx_t *tx, const void *data, size_t len) {
+    if (dz_active && dz_dir == 0 && tx != NULL) { dz_count_layers(tx->connp); dz_body_entry(data, len); }
+    return __real_htp_tx_res_process_body_data_ex(tx, data, len);
+}
+htp_status_t __wrap_htp_tx_req_process_body_data_ex(htp_tx_t *tx, const void *data, size_t len) {
+    if (dz_active && dz_dir == 1 && tx != NULL) { dz_count_layers(tx->connp); dz_body_entry(data, len); }
+    return __real_htp_tx_req_process_body_data_ex(tx, data, len);
+}
+/* the end-of-body call made from inside htp_transaction.c (htp_tx_state_response_complete_ex /
+ * htp_tx_state_request_complete_partial) is not a cross-object reference, so the linker cannot wrap it; it is recorded from the
+ * COMPLETE hook that runs right after it, under the condition the library uses for making the call. The model takes body calls
+ * and external answers as two separate sequences, so only the order among the B entries matters. */
+static int dz_res_complete_cb(htp_tx_t *tx) {
+    if (dz_dir == 0 && tx->response_transfer_coding != HTP_CODING_NO_BODY) dz_body_entry(NULL, 0);
     return HTP_OK;
 }
+static int dz_req_complete_cb(htp_tx_t *tx) {
+    if (dz_dir == 1 && htp_tx_req_has_body(tx)) dz_body_entry(NULL, 0);
+    return HTP_OK;
+}
+static int dz_headers_cb(htp_tx_t *tx) {
+    htp_header_t *ce = htp_table_get_c(dz_dir ? tx->request_headers : tx->response_headers, "content-encoding");
+    dz_entry("C:");
+    if (ce == NULL) dz_puts(&dz_log, "N"); else dz_puthex(&dz_log, bstr_ptr(ce->value), bstr_len(ce->value));
+    return HTP_OK;
+}
+#endif /* DZ_WRAP */
+
+static unsigned long long dz_tot;
+static unsigned long dz_crc;
+static unsigned dz_ev, dz_hookfail;
+static long long dz_run_size; static unsigned dz_run_count;
+static unsigned char dz_keep[64];
+static void dz_size_flush(void) {
+    if (dz_run_count == 0) return;
+    if (dz_sizes.n) dz_puts(&dz_sizes, ",");
+    if (dz_run_size < 0) dz_puts(&dz_sizes, "N"); else dz_putn(&dz_sizes, dz_run_size);
+    if (dz_run_count > 1) { dz_puts(&dz_sizes, "x"); dz_putn(&dz_sizes, dz_run_count); }
+    dz_run_count = 0;
+}
+static int dz_body_cb(htp_tx_data_t *d) {
+    long long sz = d->data == NULL ? -1 : (long long) d->len;
+    dz_ev++;
+    if (dz_run_count && sz != dz_run_size) dz_size_flush();
+    dz_run_size = sz; dz_run_count++;
+    if (d->data != NULL) {
+        for (size_t i = 0; i < d->len && dz_tot + i < sizeof dz_keep; i++) dz_keep[dz_tot + i] = d->data[i];
+        dz_crc = crc32(dz_crc, d->data, (uInt) d->len);
+        dz_tot += d->len;
+    }
+    int rc = (dz_hookfail && dz_ev == dz_hookfail) ? HTP_ERROR : HTP_OK;
+    dz_entry("H:"); dz_putn(&dz_log, rc);
+    return rc;
+}
+
 static int drv_decomp(char **f, int nf) {
     if (strcmp(f[0], "decomp") != 0) return 0;
-    if (nf < 4) { printf("?args"); return 1; }
-    dc_delivered = 0; dc_hash = 1469598103934665603ULL; dc_cb = dc_nullcb = 0; verif_trace_bits = 0;
-    dc_keep_cap = 4096; dc_keep = malloc(dc_keep_cap); dc_keep_len = 0;
+    if (nf < 3) { printf("?args"); return 1; }
+    if (f[nf - 1][0] == '@') nf--;
+    const char *cs = f[1];
+    dz_log.n = 0; dz_sizes.n = 0; dz_need(&dz_log, 1); dz_need(&dz_sizes, 1); dz_log.p[0] = 0; dz_sizes.p[0] = 0;
+    dz_tot = 0; dz_crc = crc32(0L, Z_NULL, 0); dz_ev = 0; dz_run_count = 0; verif_trace_bits = 0;
+    dz_hookfail = (unsigned) cp_kv(cs, "hookfail", 0);
+    int dir = (int) cp_kv(cs, "dir", 0);
     htp_cfg_t *cfg = htp_config_create();
     htp_config_set_server_personality(cfg, HTP_SERVER_GENERIC);
-    long bomb = cp_kv(f[1], "bomb", -1), layers = cp_kv(f[1], "layers", -1), lz = cp_kv(f[1], "lzmalayers", -1);
-    if (bomb >= 0) htp_config_set_compression_bomb_limit(cfg, (size_t) bomb);
-    if (layers >= 0) htp_config_set_response_decompression_layer_limit(cfg, (int) layers);
-    if (lz >= 0) htp_config_set_lzma_layers(cfg, (int) lz);
-    htp_config_set_compression_time_limit(cfg, 2000000000);
-    htp_config_register_response_body_data(cfg, dc_body_cb);
+    long v;
+    if ((v = cp_kv(cs, "bomb", -1)) >= 0) htp_config_set_compression_bomb_limit(cfg, (size_t) v);
+    if ((v = cp_kv(cs, "layers", -1)) >= 0) htp_config_set_response_decompression_layer_limit(cfg, (int) v);
+    if ((v = cp_kv(cs, "lzmalayers", -1)) >= 0) htp_config_set_lzma_layers(cfg, (int) v);
+    if ((v = cp_kv(cs, "lzmamem", -1)) >= 0) htp_config_set_lzma_memlimit(cfg, (size_t) v);
+    if ((v = cp_kv(cs, "tlimit", -1)) >= 0) htp_config_set_compression_time_limit(cfg, (size_t) v);
+    if (dir == 0) htp_config_set_response_decompression(cfg, (int) cp_kv(cs, "decomp", 1));
+    else htp_config_set_request_decompression(cfg, (int) cp_kv(cs, "decomp", 1));
+    if (dir == 0) htp_config_register_response_body_data(cfg, dz_body_cb); else htp_config_register_request_body_data(cfg, dz_body_cb);
+#ifdef DZ_WRAP
+    dz_clock_calls = 0; dz_clock_step = cp_kv(cs, "tstep", 0); dz_layers_seen = 0; dz_dir = dir; dz_nbody = 0;
+    if (dir == 0) { htp_config_register_response_headers(cfg, dz_headers_cb); htp_config_register_response_complete(cfg, dz_res_complete_cb); }
+    else { htp_config_register_request_headers(cfg, dz_headers_cb); htp_config_register_request_complete(cfg, dz_req_complete_cb); }
+#endif
+    dz_active = 1;
     htp_connp_t *connp = htp_connp_create(cfg);
     htp_connp_open(connp, "10.0.0.1", 1234, "10.0.0.2", 80, NULL);
-    const char *req = "GET / HTTP/1.1\r\nHost: a\r\n\r\n";
-    htp_connp_req_data(connp, NULL, req, strlen(req));
-    char rcs[4096]; size_t nr = 0;
+    char rcs[256]; size_t nr = 0;
+    if (dir == 0) {
+        const char *req = "GET / HTTP/1.1\r\nHost: a\r\n\r\n";
+        htp_connp_req_data(connp, NULL, req, strlen(req));
+    }
     for (int i = 2; i < nf; i++) {
         size_t len; unsigned char *d = unhex_exact(f[i], &len);
-        int rc = len ? htp_connp_res_data(connp, NULL, d, len) : 0;
+        int rc = 0;
+        if (len) rc = dir == 0 ? htp_connp_res_data(connp, NULL, d, len) : htp_connp_req_data(connp, NULL, d, len);
         if (nr + 4 < sizeof(rcs)) nr += (size_t) snprintf(rcs + nr, sizeof(rcs) - nr, "%d", rc);
+#ifdef DZ_WRAP
+        dz_count_layers(connp);
+#endif
         free(d);
+    }
+    if (dir == 1) {
+        const char *res = "HTTP/1.1 200 OK\r\nContent-Length: 0\r\n\r\n";
+        htp_connp_res_data(connp, NULL, res, strlen(res));
     }
     htp_connp_close(connp, NULL);
     htp_tx_t *tx = htp_list_get(connp->conn->transactions, 0);
-    printf("delivered=%llu cb=%u nullcb=%u sml=%lld sel=%lld hash=%llx trace=%x rcs=%.*s", dc_delivered, dc_cb, dc_nullcb,
-           tx ? (long long) tx->response_message_len : -1, tx ? (long long) tx->response_entity_len : -1, dc_hash, verif_trace_bits,
-           (int) (nr > 60 ? 60 : nr), rcs);
-    if (dc_keep_len <= dc_keep_cap) { printf(" data="); puthex(dc_keep, dc_keep_len); }
-    free(dc_keep);
+    long long sml = -1, sel = -1; int cep = -1;
+    if (tx) {
+        sml = dir == 0 ? tx->response_message_len : tx->request_message_len;
+        sel = dir == 0 ? tx->response_entity_len : tx->request_entity_len;
+        cep = dir == 0 ? (int) tx->response_content_encoding_processing : (int) tx->request_content_encoding;
+    }
+    unsigned trace = verif_trace_bits;
+    /* teardown is part of the recorded call sequence (inflateEnd / LzmaDec_Free of what is still initialised) */
     htp_connp_destroy_all(connp);
     htp_config_destroy(cfg);
+    dz_active = 0;
+    dz_size_flush();
+    unsigned layers = 0, nbody = 0;
+#ifdef DZ_WRAP
+    layers = dz_layers_seen; nbody = dz_nbody;
+#endif
+    printf("ev=%u sizes=%s tot=%llu crc=%08lx sml=%lld sel=%lld layers=%u cep=%d trace=%x left=0 desync=-", dz_ev,
+           dz_sizes.n ? dz_sizes.p : "-", dz_tot, dz_crc & 0xffffffffUL, sml, sel, layers, cep, trace);
+    if (dz_tot <= sizeof dz_keep) { printf(" data="); puthex(dz_keep, (size_t) dz_tot); }
+    printf(" | rcs=%.*s nb=%u | %s", (int) nr, rcs, nbody, dz_log.n ? dz_log.p : "@");
     return 1;
 }
